@@ -33,6 +33,9 @@ GROUPS = [
     ('rules_misc', 'rule_identity'),
     ('rules_misc', 'rule_map'),
     ('rules_misc', 'rule_determinism'),
+    ('rules_checkers', 'rule_output_checkers'),
+    ('rules_checkers', 'rule_file_checkers'),
+    ('rules_crash', 'rule_crash'),
 ]
 
 
